@@ -29,12 +29,17 @@ pub open spec fn args_wf(a: FunctionArgs) -> bool {
 pub open spec fn paren_comments(a: FunctionArgs) -> bool {
     match a { FunctionArgs::Parentheses { parentheses, .. } => tok_has_comments(span_open(parentheses), true) || tok_has_comments(span_open(parentheses), false) || tok_has_comments(span_close(parentheses), true), _ => false }
 }
+// a line comment behind the single argument: without the closing parenthesis, which stands on the next line, it would comment out what follows the call
+pub uninterp spec fn arg_trailing_line_comment(e: Expression) -> bool;
+pub open spec fn inner_comments(a: FunctionArgs) -> bool {
+    paren_comments(a) || match a { FunctionArgs::Parentheses { arguments, .. } => pexprs(arguments).len() == 1 && arg_trailing_line_comment(pexprs(arguments)[0]), _ => false }
+}
 // C11, as a table: which form the result has
 pub open spec fn wants_sugar(c: Config, a: FunctionArgs, obscure: bool) -> bool {
     match a {
         FunctionArgs::String(_) => c.call_parentheses is Input || (omit_string(c) && !obscure),
         FunctionArgs::TableConstructor(_) => c.call_parentheses is Input || (omit_table(c) && !obscure),
-        FunctionArgs::Parentheses { arguments, .. } => !(c.call_parentheses is Input) && !obscure && !paren_comments(a) && pexprs(arguments).len() == 1 && match pexprs(arguments)[0] {
+        FunctionArgs::Parentheses { arguments, .. } => !(c.call_parentheses is Input) && !obscure && !inner_comments(a) && pexprs(arguments).len() == 1 && match pexprs(arguments)[0] {
             Expression::String(_) => omit_string(c),
             Expression::TableConstructor(_) => omit_table(c),
             _ => false },
@@ -144,6 +149,7 @@ impl GetLeadingTrivia for TokenReference { }
 #[verifier::external_body] pub fn lead_of_args(a: &FunctionArgs) -> (r: Vec<Token>) ensures r@ == args_lead(*a) { unimplemented!() /* GetLeadingTrivia::leading_trivia(a) */ }
 #[verifier::external_body] pub fn lead_of_tok(t: &TokenReference) -> (r: Vec<Token>) ensures r@ == tr_lead(*t) { unimplemented!() /* GetLeadingTrivia::leading_trivia(t) */ }
 #[verifier::external_body] pub fn lead_of_table(t: &TableConstructor) -> (r: Vec<Token>) ensures r@ == table_lead(*t) { unimplemented!() /* GetLeadingTrivia::leading_trivia(t.braces().tokens().0) */ }
+#[verifier::external_body] pub fn arg_line_comment(e: &Expression) -> (r: bool) ensures r == arg_trailing_line_comment(*e) { unimplemented!() }
 #[verifier::external_body] pub fn has_comments(t: &TokenReference, leading: bool) -> (r: bool) ensures r == tok_has_comments(*t, leading) { unimplemented!() }
 """, module="verif_args"),
         Fn(FUN, "function_args_contains_comments", mode="stub"),
@@ -160,6 +166,7 @@ impl GetLeadingTrivia for TokenReference { }
         (r is String || r is TableConstructor) ==> separated(r, spaces_tt(1)), //# C10.sugar_argument_separated
     decreases (if *function_args is Parentheses { 1int } else { 0int }),
 """, edits=[
+            Hole("arguments.iter().next().unwrap().has_trailing_comments(CommentSearch::Single)", "verif_args::arg_line_comment(first_arg(arguments))", kind="wrapper", why="GetTrailingTrivia default method (iterator chain) on the first argument", optional=True),
             Hole("arguments.iter().next().unwrap()", "first_arg(arguments)", kind="wrapper", why="Punctuated::iter().next().unwrap()", count=2),
             Hole("parentheses.tokens().0.has_leading_comments(CommentSearch::All)", "verif_args::has_comments(parentheses.tokens().0, true)", kind="wrapper", why="GetLeadingTrivia default method (iterator chain)"),
             Hole("parentheses.tokens().0.has_trailing_comments(CommentSearch::All)", "verif_args::has_comments(parentheses.tokens().0, false)", kind="wrapper", why="GetTrailingTrivia default method (iterator chain)"),
@@ -228,7 +235,7 @@ pub open spec fn call_post(c: Config, call: Call, obscure: bool, r: Call) -> boo
     return its
 
 LABELS = {
-    "C11.call_parentheses_table": dict(props=["C11"], text="format_function_args: the result is written without parentheses exactly when the call_parentheses table says so (Always: never; None/NoSingleString/NoSingleTable: the matching single argument, unless an index/method call follows or the parentheses carry comments; Input: as written)"),
+    "C11.call_parentheses_table": dict(props=["C11"], text="format_function_args: the result is written without parentheses exactly when the call_parentheses table says so (Always: never; None/NoSingleString/NoSingleTable: the matching single argument, unless an index/method call follows, the parentheses carry comments or a line comment stands behind the argument; Input: as written)"),
     "C11.parentheses_otherwise": dict(props=["C11"], text="format_function_args: otherwise the result has parentheses"),
     "C11.input_keeps_form": dict(props=["C11"], text="call_parentheses = Input: each call keeps the form it had"),
     "C02.call_sugar_keeps_argument": dict(props=["C02", "C11"], text="format_function_args: the argument list is the same modulo the call sugar f's' / f{t} (same single argument; same number of arguments, each with the same operator tree)"),
